@@ -4,8 +4,9 @@ package main
 // contract: the number of call instructions named f (same naming as the call: anchors) that
 // have been executed in the function's own body so far. It lets a contract say "on every
 // path that returns true the consumer was signalled exactly once" or "exactly one response is
-// written". The counter is a hidden local variable; a counted call inside a loop of the
-// function makes the contract stale (the loop would need an invariant about the counter).
+// written". The counter is a hidden local variable; at the head of a loop that contains a counted
+// call it is forgotten like any variable the loop assigns (it can only have grown), so the loop
+// needs an invariant about calls(f) for anything to be known after it.
 
 import (
 	"go/types"
@@ -59,16 +60,6 @@ func (x *Exec) initCallCounters(fr *frame, st *State, con *FnContract) {
 		k := cellKey{fr.inst, a}
 		x.callCounters[n] = k
 		st.cells[k] = x.c.Scalar(types.Typ[types.Int], x.c.IntLit(0))
-		// refuse counted calls inside loops
-		for _, b := range fr.fn.Blocks {
-			for _, ins := range b.Instrs {
-				for _, an := range anchorsOf(ins) {
-					if an == "call:"+n && blockInLoop(b) {
-						x.staleMsgs = append(x.staleMsgs, "calls("+n+"): a counted call lies inside a loop of "+shortName(fr.fn))
-					}
-				}
-			}
-		}
 	}
 }
 
@@ -106,5 +97,32 @@ func (x *Exec) countCall(fr *frame, st *State, ins ssa.Instruction) {
 			cur := st.cells[k]
 			st.cells[k] = x.c.Scalar(types.Typ[types.Int], x.c.add(cur.Term(), x.c.IntLit(1)))
 		}
+	}
+}
+
+// havocCallCounters forgets, at a loop head, the counters of the calls the loop body contains.
+func (x *Exec) havocCallCounters(fr *frame, li *loopInfo, st *State) {
+	for _, n := range sortedKeys(x.callCounters) {
+		k := x.callCounters[n]
+		old, live := st.cells[k]
+		if !live {
+			continue
+		}
+		inLoop := false
+		for b := range li.body {
+			for _, ins := range b.Instrs {
+				for _, an := range anchorsOf(ins) {
+					if an == "call:"+n {
+						inLoop = true
+					}
+				}
+			}
+		}
+		if !inLoop {
+			continue
+		}
+		nv := x.c.FreshValue("lv.calls."+n, old.T, st.pc)
+		x.c.AddFact(st.pc, mk(SBool, ">=", nv.Term(), old.Term()), "a call counter only grows")
+		st.cells[k] = nv
 	}
 }
